@@ -387,7 +387,9 @@ func (k *Kit) newRunner(br spectypes.BeaconRole, valCheck specqbft.ProposedValue
 	config.Signer = k.KM
 	var contr *controller.Controller
 	if br != spectypes.BNRoleVoluntaryExit {
-		contr = qbfttesting.NewTestingQBFTController(identifier[:], k.Share, config, false)
+		// the PRODUCTION constructor (operator/validator/controller.go): StoredInstances has capacity
+		// InstanceContainerDefaultCapacity = 2, not the 1024 of the testing constructor
+		contr = controller.NewController(identifier[:], k.Share, config, false)
 	}
 	switch br {
 	case spectypes.BNRoleAttester:
